@@ -102,6 +102,7 @@ func (s *Sim) permute(n int, site string, swap func(i, j int)) {
 
 func applyPerm(n, v int, swap func(i, j int)) {
 	switch {
+	case v <= 0: // sorted order
 	case v == 1: // reverse
 		for i, j := 0, n-1; i < j; i, j = i+1, j-1 {
 			swap(i, j)
